@@ -245,6 +245,11 @@ func genC09(o *out, r *rng, thorough bool) {
 		b := newAny(o, r, u)
 		x0, y0 := r.rangeI(-2, 8)*u, r.rangeI(-2, 8)*u
 		x1, y1 := x0+r.rangeI(0, 6)*u, y0+r.rangeI(0, 6)*u
+		if r.coin(0.3) {
+			// a rectangle covering everything the generators produce: Contains can hold for collections
+			// (with empty members, nested, wrapped) as a whole
+			x0, y0, x1, y1 = -3*u, -3*u, 13*u, 13*u
+		}
 		rid, pid := o.newID("O"), o.newID("O")
 		o.op("onew %s rect %d %d %d %d", rid, x0, y0, x1, y1)
 		o.op("onew %s polygon 0 0 1 5 %d %d %d %d %d %d %d %d %d %d", pid, x0, y0, x1, y0, x1, y1, x0, y1, x0, y0)
